@@ -81,8 +81,7 @@ def baselines(ctx: Ctx):
 
 def factory(ctx: Ctx):
     ci = ctx.repo.cls(LY.MCM, "_BaseUnconditionalCubeCounts")
-    fac = ctx.repo.lookup(ci, "factory")
-    body = SUMMARIZER.summarize(fac.node)
+    body = LY.factory_body(ctx, ci)
     want = "cube.counts_with_missings[cls._slice_idx_expr(cube, slice_idx)]"
     n_leaves = 0
     for guards, leaf in strip_ifexp_paths(body):
